@@ -11,6 +11,7 @@
 import QlibcModel.HashTbl.WalkMap
 import QlibcModel.HashTbl.DecLemmas
 import QlibcModel.HashTbl.Args
+import QlibcModel.Shapes.Hashtbl
 
 namespace Qlibc.Props.C05
 open Qlibc Qlibc.Dec Qlibc.HashTbl
